@@ -96,6 +96,12 @@ def configs():
         reads="hist-index")
     add("history-ties", ["-a", "first=ACGTACGTAA", "-a", "second=ACGTACGTCC", "--info-file", "{d}/info.tsv", "-o", "{d}/d-{{name}}.fq"],
         reads="hist-ties")
+    # statistics that are merged across workers: an enabled filter that never applies (count 0, not null), no input record at all
+    add("zero-hit-filters", ["-a", f"a1={A1}", "-m", "1", "-M", "90", "--max-n", "9", "--too-short-output", "{d}/ts.fq", "-o", "{d}/out.fq"],
+        reads="nonempty")
+    add("empty-input", ["-a", f"a1={A1}", "-m", "5", "-o", "{d}/out.fq"], nreads=0)
+    add("empty-paired", ["-a", f"a1={A1}", "-A", f"b2={A2}", "-m", "5", "--report=minimal", "-o", "{d}/o1.fq", "-p", "{d}/o2.fq"], layout="paired",
+        nreads=0)
     # output format from an upper-case extension; FASTA headers that contain '>' (interleaved input, single-record chunks)
     add("fasta-upper-ext", ["-a", f"a1={A1}", "-o", "{d}/OUT.FA"])
     add("interleaved-fasta-gt", ["--interleaved", "-a", f"a1={A1}", "-A", f"b2={A2}", "-o", "{d}/out.fa"], layout="interleaved", fmt="fasta",
@@ -138,6 +144,8 @@ def write_inputs(cfg, wd):
     r1 = {"rc": reads_rc, "hist-index": reads_hist_index, "hist-ties": reads_hist_ties, "gt": reads_gt}.get(
         cfg.get("reads"), reads_single)()[: cfg["nreads"]]
     r2 = reads_r2()[: cfg["nreads"]]
+    if cfg.get("reads") == "nonempty":
+        r1 = [x for x in reads_single() if x[1]]
     if cfg.get("reads") == "gt":
         r2 = [(n.split()[0], s_, q) for n, s_, q in r2]
     txt = clih.fastq_text if cfg["fmt"] == "fastq" else clih.fasta_text
